@@ -147,6 +147,9 @@ pub struct Facts {
     pub failed_reg_multi_step: u32,
     pub err_with_pending_batch: u32,
     pub recycles: u32,
+    pub readapts: u32,
+    pub failed_adapts: u32,
+    pub adapts: u32,
     pub interest_changes: u32,
     pub taints: BTreeMap<&'static str, u32>,
     pub nesting_depth2: u32,
@@ -156,7 +159,18 @@ pub struct Facts {
     pub foreign: Option<String>,
 }
 
+#[derive(Clone, Debug)]
+struct MAsync {
+    fd: i32,
+    live: bool,
+    nb_before: bool,
+}
+
 pub struct Monitor {
+    asyncs: Vec<MAsync>,
+    pending_adapt: Option<(Option<usize>, bool)>,
+    pending_release: Option<(usize, bool)>,
+    known_fds: Vec<i32>,
     srcs: Vec<MSrc>,
     tokens: Vec<SrcId>,
     idles: Vec<MIdle>,
@@ -206,6 +220,7 @@ fn kind_name(k: &Kind) -> &'static str {
         Kind::Timer { .. } => "timer",
         Kind::Gen { .. } => "gen",
         Kind::Exec => "exec",
+        Kind::BadGen { .. } => "badgen",
         Kind::Probe { .. } => "probe",
     }
 }
@@ -213,6 +228,10 @@ fn kind_name(k: &Kind) -> &'static str {
 impl Monitor {
     pub fn new() -> Self {
         Monitor {
+            asyncs: vec![],
+            pending_adapt: None,
+            pending_release: None,
+            known_fds: vec![],
             srcs: vec![],
             tokens: vec![],
             idles: vec![],
@@ -629,7 +648,13 @@ impl Monitor {
                     }
                     1 => {
                         if was_enabled {
-                            self.taint(s, "enable_while_enabled");
+                            // a second registration that is refused leaves everything as it was; one that is
+                            // accepted (timers arm twice) is misuse the statements do not cover
+                            if call_ok {
+                                self.taint(s, "enable_while_enabled");
+                            } else {
+                                self.facts.failed_registrations += 1;
+                            }
                         } else if call_ok {
                             let m = &mut self.srcs[s];
                             m.enabled = true;
@@ -723,6 +748,73 @@ impl Monitor {
                 None
             }
             ROp::Schedule { .. } | ROp::Wake { .. } | ROp::DropScheduler { .. } => None,
+            ROp::Adapt { fd, live_before, regular_file, nonblocking_before, .. } => {
+                let Some((a, nb_after)) = self.pending_adapt.take() else { return None };
+                if !self.known_fds.contains(&fd) {
+                    self.known_fds.push(fd);
+                }
+                self.facts.adapts += 1;
+                let must_fail = live_before || regular_file;
+                if !evs.is_empty() {
+                    return viol("C07.interference", &["C15", "C16", "C07"], format!("adapt_io called {:?} on source #{}", evs[0].kind, evs[0].src));
+                }
+                match (a, res.is_ok()) {
+                    (Some(idx), true) => {
+                        if must_fail {
+                            // the poller accepted a registration we expected it to refuse: outside the model
+                            self.facts.foreign = Some("adapt_io of a duplicate/regular fd succeeded".into());
+                            self.stop = true;
+                            return None;
+                        }
+                        debug_assert_eq!(idx, self.asyncs.len());
+                        if self.asyncs.iter().any(|x| x.fd == fd) {
+                            self.facts.readapts += 1;
+                        }
+                        self.asyncs.push(MAsync { fd, live: true, nb_before: nonblocking_before });
+                        if !nb_after {
+                            return viol("C17.flags", &["C17", "C15"], format!("fd {fd} is still blocking after adapt_io succeeded"));
+                        }
+                    }
+                    (None, false) => {
+                        self.facts.failed_adapts += 1;
+                        self.facts.failed_registrations += 1;
+                        if !must_fail {
+                            return Some((
+                                Violation::new(
+                                    "C16.reinsert",
+                                    format!("adapt_io of fd {fd} failed ({res:?}) although no adapter or source holds it (released earlier: {})", self.asyncs.iter().any(|x| x.fd == fd)),
+                                )
+                                .with_sig("C16.reinsert/adapt_io-after-release"),
+                                vec!["C16", "C15"],
+                            ));
+                        }
+                        if nb_after != nonblocking_before {
+                            return Some((
+                                Violation::new("C15.flags", format!("failed adapt_io left fd {fd} with O_NONBLOCK={nb_after}, it was {nonblocking_before} before the call")).with_sig("C15.flags/failed-adapt_io"),
+                                vec!["C15", "C17"],
+                            ));
+                        }
+                    }
+                    _ => {
+                        return viol("C15.err", &["C15"], format!("adapt_io result {res:?} inconsistent with adapter {a:?}"));
+                    }
+                }
+                None
+            }
+            ROp::AsyncRelease { a, fd, .. } => {
+                let Some((ia, nb_after)) = self.pending_release.take() else { return None };
+                debug_assert_eq!(a, ia);
+                if !evs.is_empty() {
+                    return viol("C07.interference", &["C15", "C16", "C07"], format!("releasing an adapter called {:?} on source #{}", evs[0].kind, evs[0].src));
+                }
+                let m = &mut self.asyncs[a];
+                m.live = false;
+                if nb_after != m.nb_before {
+                    return viol("C17.flags", &["C17", "C16"], format!("after the adapter of fd {fd} was released O_NONBLOCK is {nb_after}, before adapt_io it was {}", m.nb_before));
+                }
+                None
+            }
+            ROp::InsertBad { .. } => None,
         }
     }
 
@@ -927,7 +1019,7 @@ impl Monitor {
                     }
                     any
                 }
-                Kind::Exec => false,
+                Kind::Exec | Kind::BadGen { .. } => false,
             };
             if owed {
                 m.owed = true;
@@ -1543,12 +1635,12 @@ impl Monitor {
                 if self.any_taint() {
                     return None;
                 }
-                let want_occ = self.srcs.iter().filter(|m| m.st == St::Inserted).count();
+                let want_occ = self.srcs.iter().filter(|m| m.st == St::Inserted).count() + self.asyncs.iter().filter(|a| a.live).count();
                 if *occupied != want_occ {
                     return viol(
                         "C06.release",
                         &["C06", "C15"],
-                        format!("loop has {occupied} occupied slots, model has {want_occ} inserted sources"),
+                        format!("loop has {occupied} occupied slots, model has {want_occ} inserted sources and live adapters"),
                     );
                 }
                 let want_lc = self.srcs.iter().filter(|m| m.lifecycle && m.st == St::Inserted && m.enabled).count();
@@ -1593,6 +1685,14 @@ impl Monitor {
                 }
                 None
             }
+            Ev::Adapted { a, nonblocking_after } => {
+                self.pending_adapt = Some((*a, *nonblocking_after));
+                None
+            }
+            Ev::AsyncReleased { a, nonblocking_after } => {
+                self.pending_release = Some((*a, *nonblocking_after));
+                None
+            }
             Ev::LoopDropped => {
                 self.loop_dropped = true;
                 None
@@ -1626,6 +1726,22 @@ impl Monitor {
         let base = self.base_epoll.clone().unwrap_or_default();
         let mut actual: Vec<(i32, u32, u64)> = entries.iter().filter(|e| !base.iter().any(|b| b.0 == e.0 && b.2 == e.2)).cloned().collect();
         actual.sort();
+        // adapters: exactly one entry per live adapter fd, none for released ones
+        for fd in self.known_fds.clone() {
+            let live = self.asyncs.iter().filter(|a| a.fd == fd && a.live).count();
+            let n = actual.iter().filter(|e| e.0 == fd).count();
+            if n != live {
+                return Some((
+                    Violation::new(
+                        "C16.table",
+                        format!("kernel epoll table holds {n} entr{} for fd {fd}, which has {live} live adapter(s) (entries {actual:x?})", if n == 1 { "y" } else { "ies" }),
+                    )
+                    .with_sig(if n > live { "C16.table/stale-adapter-fd" } else { "C16.table/adapter-fd-missing" }),
+                    vec!["C16", "C15"],
+                ));
+            }
+            actual.retain(|e| e.0 != fd);
+        }
         // expected keys
         let mut want_keys: Vec<u64> = vec![];
         for m in self.srcs.iter() {
